@@ -30,8 +30,10 @@ Definition modify_o (r p : string) : string * string :=
       let p1 := replace ".[O]" "" p in
       (r ++ repeat_str ".[H].[H]" oc, after p1 "O" ".O" oc)
   else if contains ".OO" p then
+    (* every removed peroxide is compensated (repaired in /repo: the pinned code compensated for one only) *)
+    let n := count ".OO" p in
     let p1 := replace ".OO" "" p in
-    (r ++ ".[H].[H]", if String.eqb p1 "" then "O.O" else p1 ++ ".O.O")
+    (r ++ repeat_str ".[H].[H]" n, if String.eqb p1 "" then "O" ++ repeat_str ".O" (2 * n - 1) else p1 ++ repeat_str ".O" (2 * n))
   else (r, p).
 Definition modify (r p : string) : string * string :=
   let '(r1, p1) := modify_h r p in modify_o r1 p1.
